@@ -3,11 +3,12 @@
 # (so that /repo itself stays free for editing; the baseline and the engine binary are frozen copies too); evidence and replays of these runs go to a scratch directory.
 pat=${1:-.}
 scr=$(mktemp -d /tmp/mutrepo.XXXXXX)
-trap 'rm -rf $scr' EXIT
+trap 'rm -rf $scr $fz' EXIT
 git -C /repo archive HEAD | tar -x -C $scr
 (cd $scr && git init -q && git add -A && git -c user.email=x -c user.name=x commit -qm base)
-cp /verif/baseline/obligations.json $scr/.baseline.json; cp /verif/bin/sctpvc $scr/.sctpvc
-export SCTPVC_EVIDENCE_DIR=$scr/.evidence SCTPVC_REPLAY_DIR=$scr/.replays SCTPVC_BASELINE_FILE=$scr/.baseline.json
+fz=$(mktemp -d /tmp/mutfrozen.XXXXXX)
+cp /verif/baseline/obligations.json $fz/baseline.json; cp /verif/bin/sctpvc $fz/sctpvc
+export SCTPVC_EVIDENCE_DIR=$fz/evidence SCTPVC_REPLAY_DIR=$fz/replays SCTPVC_BASELINE_FILE=$fz/baseline.json
 cd /verif
 for d in seeded/*/; do
   id=$(basename $d); p=${id%%-*}
@@ -20,7 +21,7 @@ for d in seeded/*/; do
   git -C $scr apply $(realpath $pf)
   v=missed; obl=""
   for q in $props; do
-    res=$($scr/.sctpvc check $q --tier quick --repo $scr 2>&1)
+    res=$($fz/sctpvc check $q --tier quick --repo $scr 2>&1)
     if echo "$res" | grep -q "^VIOLATION"; then v=CAUGHT; obl="$obl [$q] $(echo "$res" | grep -o 'obligation="[^"]*"' | head -2 | tr '\n' ' ')"; elif echo "$res" | grep -q UNDECIDED && [ $v = missed ]; then v=UNDECIDED; obl="$obl [$q] $(echo "$res" | grep UNDECIDED | head -1 | cut -c1-160)"; fi
   done
   echo "$id $p $v $obl"
